@@ -78,6 +78,9 @@ macro_rules
                 List.map_nil, List.cons_append, List.nil_append, List.append_assoc,
                 Bool.false_eq_true, if_true, if_false]) <;> omega))
 
+/-- view a `Reach` goal as a `Runs … (.ok …)` goal (so that the opcode lemmas apply) -/
+macro "as_runs" : tactic => `(tactic| show Runs _ _ _ (Res.ok _))
+
 /-- a successful run to the canonical end state, then anything -/
 theorem Runs.andThen {c P s r ip st scs σ lim Q} (h1 : Runs c P s (outcome r ip st scs σ lim))
     (hok : ∀ v, r = .ok v → Runs c P (vm ip (v :: st) scs σ lim) Q)
